@@ -148,6 +148,43 @@ CLAIMED["C19"] = (
     "Lean 4 proof (atomicity + twin theorems per cluster; translated effect order => atomicity) with fault-injection correspondence and twin oracle",
     "DESIGN.md §5 C19, §10.2")
 
+CLAIMED["C08"] = (
+    "Lean 4 theorems over a transcription of the observe machinery (heap of HasTraits instances and list/dict/set cells with their own "
+    "identity, ObserverGraph with the orderless __eq__, _AddOrRemoveNotifier incl. the shared undo log of fix 4ea62e3, "
+    "TraitEventNotifier reference counts, ObserverChangeNotifier maintainers, setattr_trait incl. the silent evaluation of a default as "
+    "the old value, call_notifiers over a copied list, container notify over the live list) against a from-scratch specification "
+    "(hookList / reach / specCnt): a registration that does not raise adds exactly the from-scratch hooks (reference count grows by "
+    "reach), it raises iff the walk meets a failing iter_observables/iter_objects, after observe hooks equal the specification; the "
+    "refinement invariant 'hooks = from-scratch hooks of the current heap' is preserved by trait assignment, default "
+    "materialisation and list mutations incl. duplicates and sharing (C08_hooks_eq_reach_partial, _partial_list, "
+    "_default_materialise_partial) under the no-self-reach hypothesis, hence the handler fires exactly once iff reachable "
+    "(C08_fires_iff_reachable_partial), detached objects are silent, quiet links never deliver (full, no heap hypothesis), every event "
+    "names the mutated observable. The full-strength statements are kept as defs and proved FALSE from the F10 history (a link "
+    "re-pointed while its owner is reachable through it) by decide; F80 (a default evaluated silently on first assignment is never "
+    "hooked) is a second known finding. Dict/set mutations, add_trait, container defaults and filtered nodes are covered by the "
+    "correspondence only. Correspondence: pools of real objects, expressions over value/child/kids/byname/group/metadata, histories "
+    "of mutations; after every step every object is probed and the notifier population per observable is compared white-box.",
+    "Trusted: Lean kernel, standard axioms; no translator for this cluster (tie = correspondence incl. white-box counts + oracle); "
+    "ObserverGraph.__eq__ is assumed structural among the subgraphs involved (eqStruct); dispatchers other than 'same' not modelled; harness.",
+    "Lean 4 proof (refinement invariant hooks = reach on the assignment/list fragments; full statements refuted by witness) with white-box correspondence",
+    "DESIGN.md §5 C08, §10.2")
+CLAIMED["C09"] = (
+    "Lean 4 theorems over the same model: removal right after a successful registration restores every count; n registrations add n "
+    "times the items, m <= n removals never raise and leave n - m, n and n restore everything (counted, reversible); counts of "
+    "different registrations add up independently; registering or removing at any position of the ledger moves the invariant, so "
+    "interleavings with mutations are covered together with C08's fragments; one removal too many raises NotifierNotFound and leaves the "
+    "hooks literally unchanged; FAILURE ATOMICITY AT FULL STRENGTH after fix 4ea62e3 (C09_failure_atomic, _observe for a whole "
+    "observe() call incl. several graphs and compile errors, _any_call for the maintainers' calls): a raising registration or removal "
+    "restores every count; nothing is delivered to a dead key and with all weak references dead a mutation delivers nothing, raises "
+    "nothing and touches no hook. The GC clause ('registrations never keep the observed object or a bound-method handler's owner "
+    "alive; after collection nothing raises or calls') is runtime behaviour: it is TESTED on the real code (weakref + gc.collect() "
+    "at every point of generated histories, then probe), labelled as a test; the Lean side proves only C09_dead_is_mute. "
+    "Correspondence: interleavings of observe / observe(remove=True) for several handlers and expressions with mutations; failure "
+    "injection at every position of the walk (missing trait, non-container where a container is required).",
+    "Trusted: Lean kernel, standard axioms; CPython reference counting / GC (the liveness clause is tested, not proved); harness.",
+    "Lean 4 proof (add/remove inverse, counting, failure atomicity via one undo log) with failure-injection correspondence; GC clause tested",
+    "DESIGN.md §5 C09, §10.2")
+
 NOT_YET = "check not built yet in this round (planned in DESIGN.md §9); not claimed until it exists"
 
 
